@@ -207,30 +207,40 @@ func (rr *DefaultRelationsResolver) SortStates(states S) {
 
 	rr.sortRequire(states)
 
-	// sort by After
+	// sort by After, keeping the Require order: repeatedly take the first state
+	// which isn't preceded by any of the remaining ones (stable, cycles keep the
+	// current order)
 	// TODO optimize / cache (but not in debug, to have steps)
-	sort.SliceStable(states, func(i, j int) bool {
-		name1 := states[i]
-		name2 := states[j]
-		state1 := m.schema[name1]
-		state2 := m.schema[name2]
-
-		// forward relations
-		if slices.Contains(state1.After, name2) {
-			if t.isLogSteps() {
-				t.addSteps(newStep(name2, name1, StepRelation, RelationAfter))
+	rest := slices.Clone(states)
+	for i := range states {
+		pick := 0
+		for ii, name := range rest {
+			state := m.schema[name]
+			ready := true
+			for _, other := range rest {
+				if other == name {
+					continue
+				}
+				if slices.Contains(state.After, other) {
+					if t.isLogSteps() {
+						t.addSteps(newStep(other, name, StepRelation, RelationAfter))
+					}
+					ready = false
+					break
+				}
+				if slices.Contains(state.Require, other) {
+					ready = false
+					break
+				}
 			}
-			return false
-
-		} else if slices.Contains(state2.After, name1) {
-			if t.isLogSteps() {
-				t.addSteps(newStep(name1, name2, StepRelation, RelationAfter))
+			if ready {
+				pick = ii
+				break
 			}
-			return true
 		}
-
-		return false
-	})
+		states[i] = rest[pick]
+		rest = slices.Delete(rest, pick, pick+1)
+	}
 }
 
 // sortRequire sorts the states by Require relations.
